@@ -66,10 +66,10 @@ func (v Version) Metric(name string) *Metric {
 	return nil
 }
 
-func c(code, w string) Code        { return Code{Code: code, Weight: w} }
-func nd(code, w string) Code       { return Code{Code: code, Weight: w, NotDefined: true} }
-func cs(code, wu, wc string) Code  { return Code{Code: code, Weight: wu, WeightChanged: wc} }
-func ndm(code string) Code         { return Code{Code: code, NotDefined: true} }
+func c(code, w string) Code       { return Code{Code: code, Weight: w} }
+func nd(code, w string) Code      { return Code{Code: code, Weight: w, NotDefined: true} }
+func cs(code, wu, wc string) Code { return Code{Code: code, Weight: wu, WeightChanged: wc} }
+func ndm(code string) Code        { return Code{Code: code, NotDefined: true} }
 
 // V3 is CVSS v3.0 / v3.1 (the metric tables are identical in both).
 var V3 = Version{Name: "v3", Pkg: "v3/metric", Levels: []Level{
@@ -133,8 +133,8 @@ var VersionLabels = []string{"3.0", "3.1"}
 // Band is one qualitative severity rating band on the tenth grid (inclusive
 // bounds in tenths).
 type Band struct {
-	Name     string
-	Lo, Hi   int // tenths
+	Name   string
+	Lo, Hi int // tenths
 }
 
 var BandsV3 = []Band{{"None", 0, 0}, {"Low", 1, 39}, {"Medium", 40, 69}, {"High", 70, 89}, {"Critical", 90, 100}}
